@@ -121,3 +121,10 @@ Definition prop_c11 (input impl : val) : option Z :=
   else None.
 
 Definition chk_c11 : val -> val := mk_chk run_c11 prop_c11.
+
+(* ---------- C11, removal against an update in flight, asked of the implementation directly ----------
+   input ( router-kind park-at ) ; impl ( close-returned-while-the-update-was-parked routed-after-removal )
+   1: a lookup issued after Close had returned (and after the update that was in flight had run to its end) was routed to
+      the removed target.  That Close returned early is not a failure by itself. *)
+Definition chk_c11_inflight (c : val) : val :=
+  if Z.eqb (as_Z (nthv 1 (nthv 1 c))) 0 then verdict_ok else verdict_propfail 1 (VL []).
